@@ -313,10 +313,9 @@ Definition behaviour_of (c : cell) : behaviour :=
       | _ => ErrorPath CallError                            (* 413 / ErrRequestEntityTooLarge for that call *)
       end
   | Server, FOversizeResponse =>
-      (* buffer[:8+len(body)] with len(body) > 65499: slice bounds panic in the UDP server's send goroutine *)
-      Panics {| g_root := server_conn_goroutine tr "send";
-                g_chain := [("udp.Handler.send", "ext:net.UDPConn.WriteToUDP")];
-                g_site := "ext:net.UDPConn.WriteToUDP"; g_needs := [] |}
+      (* since 7f6e14b: send answers len(body) > len(buffer)-8 with an error datagram for that index and goes on;
+         the client's receive loop treats an error frame as fatal for its own socket (Close(err)) and re-dials *)
+      ErrorPath ConnClosed
   | Client, FFrameShort =>
       match tr with
       | TWebsocket => (* body[4:] on a short message: panic in the client's Receive goroutine *)
@@ -327,16 +326,11 @@ Definition behaviour_of (c : cell) : behaviour :=
       | _ => ErrorPath ConnClosed
       end
   | Client, FFrameBadCrc => ErrorPath ConnClosed
-  | Client, FFrameLength =>
-      match tr with
-      | TUdp => ErrorPath CallError      (* make(declared); copy: the datagram is padded or cut, decoded, and the call alone sees it *)
-      | _ => ErrorPath ConnClosed
-      end
+  | Client, FFrameLength => ErrorPath ConnClosed      (* udp (since 5ee4f50): declared length <> bytes received is an InvalidResponseError *)
   | Client, FOversizeRequest =>
-      (* buffer[:8+len(request.Body)] with more than 65499 bytes: panic in the client's Send goroutine *)
-      Panics {| g_root := client_conn_goroutine tr "Send";
-                g_chain := [("udp.conn.Send", "udp.conn.send"); ("udp.conn.send", "ext:net.Conn.Write")];
-                g_site := "ext:net.Conn.Write"; g_needs := [] |}
+      (* since 7f6e14b: conn.Transport refuses len(request) > maxBodyLength with ErrRequestEntityTooLarge
+         before anything is queued: the Send goroutine never sees it *)
+      ErrorPath CallError
   | Client, FBadPayload => ErrorPath CallError         (* ClientCodec.Decode returns an error to the caller *)
   | Client, FProviderPanic =>
       Panics {| g_root := RGo "plugins/reverse.Provider.dispatch" "plugins/reverse.Provider.dispatch$1";
@@ -571,21 +565,37 @@ Definition entry_protected (t : tbl) (f : string) : bool :=
 Definition goroutine_eqb (a b : string * string) : bool :=
   String.eqb (fst a) (fst b) && String.eqb (snd a) (snd b).
 
-(* the goroutines of the tree as pinned whose entry has no effective recover *)
+(* the goroutines whose entry function has no effective recover of its own (tree as repaired).
+   None of them is reached by an uncontained fault: see covered_by_inner_frame below. *)
 Definition unprotected_goroutines : list (string * string) := [
-  ("socket.Handler.BindContext", "socket.Handler.bind");      (* only `defer cancel()`; runs Accept and OnError callbacks *)
-  ("socket.Transport.getConn", "socket.conn.Send");           (* recover() inside conn.Exit: one frame too deep *)
-  ("socket.Transport.getConn", "socket.conn.Receive");
-  ("udp.Transport.getConn", "udp.conn.Send");
-  ("udp.Transport.getConn", "udp.conn.Receive");
-  ("websocket.Transport.getConn", "websocket.conn.Send");
-  ("websocket.Transport.getConn", "websocket.conn.Receive");
-  ("mock.Transport.Transport", "mock.Transport.Transport$1"); (* no defer at all *)
-  ("plugins/reverse.Provider.dispatch", "plugins/reverse.Provider.dispatch$1");  (* relies on Provider.process' own recover *)
-  ("plugins/reverse.Provider.Listen", "plugins/reverse.Provider.dispatch")       (* runs proxy.end and OnError callbacks *)
+  ("socket.Handler.BindContext", "socket.Handler.bind");      (* only `defer cancel()`; runs Accept and the OnError callback; no request data reaches it *)
+  ("mock.Transport.Transport", "mock.Transport.Transport$1"); (* no defer at all; everything request-dependent it runs is inside Service.Handle's recover *)
+  ("plugins/reverse.Provider.dispatch", "plugins/reverse.Provider.dispatch$1");  (* runs only Provider.process, which recovers itself *)
+  ("plugins/reverse.Provider.Listen", "plugins/reverse.Provider.dispatch")       (* runs proxy.end and the OnError callback *)
 ].
 
 Definition unprotected (g : string * string) : bool := existsb (goroutine_eqb g) unprotected_goroutines.
+
+(* A fault cell whose panic is raised on a goroutine with an unprotected entry must be stopped
+   by a frame further in (Service.Handle / Service.Process / Provider.process). *)
+Definition covered_by_inner_frame (t : tbl) (c : cell) : bool :=
+  match behaviour_of c with
+  | Panics g =>
+      match g_root g with
+      | RGo encl target =>
+          if unprotected (encl, target)
+          then match recovering_frame t c with Some _ => true | None => false end
+          else true
+      | _ => true
+      end
+  | ErrorPath _ => true
+  end.
+
+Definition on_unprotected_goroutine (c : cell) : bool :=
+  match behaviour_of c with
+  | Panics g => match g_root g with RGo encl target => unprotected (encl, target) | _ => false end
+  | ErrorPath _ => false
+  end.
 
 (* ------------------------------------------------------------------------------------ *)
 (* 8. names for the driver                                                                *)
@@ -622,22 +632,15 @@ Definition report (t : tbl) : list (string * string * string * list string) :=
                  stack_names t c)) cells.
 
 (* ------------------------------------------------------------------------------------ *)
-(* 9. the cells whose fault is NOT contained on the tree as pinned (each has a
-      C11_contained_refuted_* theorem in Props/C11.v; C11_contained_partial covers every
-      other cell).  When one of them is repaired in /repo the corresponding refutation stops
-      compiling: remove the cell here and its theorem there. *)
+(* 9. the cells whose fault is NOT contained.  On the tree as repaired (6fc72b7 client loops
+      recover their own panics, 363c1a3 Service.Handle recovers around the IO chain, 7f6e14b UDP
+      messages too large for one datagram are refused) there is none: Props/C11.v proves
+      C11_contained for every applicable cell.  The list stays as the place where a future
+      refuted cell would be recorded (with a C11_contained_refuted_* theorem and a guarded
+      _partial theorem beside it). *)
 Definition mk (tr : transport) (sd : side) (p : bool) (f : fault) : cell :=
   {| c_tr := tr; c_side := sd; c_pool := p; c_fault := f |}.
 
-Definition known_escapes : list cell := [
-  mk TMock Server false FDecodePanic;        (* Decode runs outside Process' recover; the mock goroutine has none *)
-  mk TMock Server false FIOPluginPanic;      (* IO plugins run outside Process' recover; the mock goroutine has none *)
-  mk TFastHttp Server false FDecodePanic;    (* ... and fasthttp's worker goroutine has none either *)
-  mk TFastHttp Server false FIOPluginPanic;
-  mk TWebsocket Client false FFrameShort;    (* conn.Exit calls recover() one frame too deep *)
-  mk TUdp Client false FOversizeRequest;     (* conn.Exit calls recover() one frame too deep *)
-  mk TUdp Server false FOversizeResponse;    (* recovered, but the recovery ends the only server loop *)
-  mk TUdp Server true FOversizeResponse
-].
+Definition known_escapes : list cell := [].
 
 Definition escaped (c : cell) : bool := existsb (cell_eqb c) known_escapes.
